@@ -2,6 +2,7 @@ package netconf
 
 import (
 	"bytes"
+	"github.com/scrapli/scrapligo/util/verifhook"
 	"strconv"
 	"time"
 )
@@ -33,9 +34,12 @@ func (d *Driver) read() {
 		default:
 		}
 
+		verifhook.Point("nc.read.top")
 		rb, err := d.Channel.Read()
 		if err != nil {
+			verifhook.Point("nc.read.errs-send")
 			d.errs <- err
+			verifhook.Point("nc.read.errs-sent")
 		}
 
 		b = append(b, rb...)
